@@ -43,8 +43,8 @@ class StrategyFamily(common.Family):
       ncut = rng.choice([1, 1, 2])
       cuts = sorted({rng.randrange(0, nops + 1) for _ in range(ncut)})
     stage_threads = None
-    if strat in ('threads', 'chain', 'chain_threads', 'shards') and \
-        rng.random() < 0.3:
+    if strat in ('threads', 'chain', 'chain_threads', 'shards',
+                 'interleaved') and rng.random() < 0.3:
       # aggregates on an earlier named stage too (the reference is then the
       # same two-stage chain run sequentially)
       pipes.gen_early(rng, spec)
@@ -185,10 +185,18 @@ class StrategyFamily(common.Family):
           for name in p.named_transforms()}
       with orchestrate.run_pipeline_interleaved(p, resources=resources) as r:
         obs['out'] = [pipes.batch_key(b) for b in r.result_queue]
-      returned = list(r.result_queue.returned)
-      obs['n_results'] = len(returned)
+      # every aggregating stage reports its own result on its own queue
+      from ml_metrics._src.chainables import transform as transform_lib
+      returned = [x for st in r.stages for x in st.result_queue.returned]
+      agg_stages = sum(1 for _, t in p.named_transforms().items()
+                       if t.make().has_agg)
+      obs['n_results'] = len(returned) - max(agg_stages - 1, 0)
+      merged = {}
+      for x in returned:
+        if isinstance(x, transform_lib.AggregateResult) and x.agg_result:
+          merged.update(x.agg_result)
       if returned:
-        obs['res'] = pipes.norm_result(returned[0].agg_result)
+        obs['res'] = pipes.norm_result(merged)
     snk = pipes.SINKS.get('snk')
     ref_snk = pipes.SINKS.get('ref')
     if ref_snk is not None:
